@@ -507,7 +507,8 @@ class G:
 
     def new_expr(self, cname, sc, depth):
         c = self.classes[cname]
-        args = [self.expr(t, sc, max(depth - 1, 0)) for (n, t, isf) in c["args"]]
+        params = [(n, t) for (n, t, _d) in c["init"]["params"]] if c.get("init") else [(n, t) for (n, t, isf) in c["args"]]
+        args = [self.expr(t, sc, max(depth - 1, 0)) for (n, t) in params]
         return ("new", TCls(cname), cname, args)
 
     # -- weak/strong classification (for choosing whether a definition must be annotated) ------------
@@ -743,9 +744,15 @@ class G:
         elif last == "bind":
             b = self.fresh("m")
             bs = Scope(sc)
-            bs.add(b, t, False)
-            self.tainted.add(b)
-            arms.append((("bind", b), self.block(bs, ctx.deeper(), 1, 2)))
+            if self.p["no_match_binding_in_float_op"]:
+                # open finding F32: the verdict of programs that use a match binding in compound expressions varies
+                # from run to run; the binding is printed (S3: the name is bound) and otherwise left alone
+                self.excluded["no_match_binding_in_float_op"] = self.excluded.get("no_match_binding_in_float_op", 0) + 1
+                arms.append((("bind", b), [("print", ("var", t, b))] + self.block(bs, ctx.deeper(), 0, 2)))
+            else:
+                bs.add(b, t, False)
+                self.tainted.add(b)
+                arms.append((("bind", b), self.block(bs, ctx.deeper(), 1, 2)))
         return [("match", subj, arms)]
 
     def s_fassign(self, sc, ctx):
@@ -872,10 +879,52 @@ class G:
             d += 1
         return d
 
+    def gen_class_explicit_init(self):
+        """A base class with Str fields and a child with an EXPLICIT constructor: the parent gets literal arguments, the
+        constructor body reads and overrides fields the parent's constructor sets (S7: parents run first)."""
+        base = self.fresh("C")
+        nb = self.int(1, 2)
+        bargs = [(self.fresh("f"), STR, True) for _ in range(nb)]
+        cb = {"name": base, "args": bargs, "parent": None, "fields": [], "methods": []}
+        self.classes[base] = cb
+        self.items.append(("class", cb))
+        name = self.fresh("C")
+        lits = ['"%s"' % self.pick([w for w in WORDS if w and '"' not in w]) for _ in range(nb)]
+        c = {"name": name, "args": [], "parent": (base, lits), "fields": [], "methods": [], "init": None}
+        own = self.fresh("g")
+        c["fields"].append((own, INT, self.lit(INT), False))
+        self.classes[name] = c
+        sc = Scope()
+        sc.add("self", TCls(name), True)
+        params = []
+        for _ in range(self.int(0, 2)):
+            pn, pt = self.fresh("p"), self.pick([INT, STR])
+            params.append((pn, pt, None))
+            sc.add(pn, pt, False)
+        recv = ("var", TCls(name), "self")
+        body = []
+        for _ in range(self.int(1, 3)):
+            k = self.pick(["own", "read_parent", "override_parent", "print_parent"])
+            f0 = self.pick(bargs)[0]
+            if k == "own":
+                body.append(("fassign", recv, own, self.int_expr(sc, 1, False)))
+            elif k == "read_parent":
+                body.append(("fassign", recv, f0, ("bin", STR, "+", ("field", STR, recv, f0), self.str_expr(sc, 1, True))))
+            elif k == "override_parent":
+                body.append(("fassign", recv, f0, self.str_expr(sc, 1, False)))
+            else:
+                body.append(("print", ("field", STR, recv, f0)))
+        c["init"] = {"params": params, "body": body}
+        if self.chance(50):
+            c["methods"].append(self.gen_method(name))
+        self.items.append(("class", c))
+
     def gen_class(self):
+        if self.p["strings"] and self.p.get("explicit_init", True) and self.chance(25):
+            return self.gen_class_explicit_init()
         name = self.fresh("C")
         parent = None
-        bases = [c for c in self.value_classes() if len(self.classes[c]["args"]) <= 2]
+        bases = [c for c in self.value_classes() if len(self.classes[c]["args"]) <= 2 and not self.classes[c].get("init")]
         args = []
         if bases and self.chance(35):
             pname = self.pick(bases)
@@ -1042,9 +1091,14 @@ class G:
             if self.chance(50):
                 b = self.fresh("m")
                 s1 = Scope(sc)
-                s1.add(b, t, False)
-                self.tainted.add(b)
-                arms.append((("bind", b), (self.block(s1, ctx.deeper(), 0, 1), self.gen_tail(ret, s1, ctx.deeper(), 0))))
+                if self.p["no_match_binding_in_float_op"]:
+                    self.excluded["no_match_binding_in_float_op"] = self.excluded.get("no_match_binding_in_float_op", 0) + 1
+                    arms.append((("bind", b), ([("print", ("var", t, b))] + self.block(s1, ctx.deeper(), 0, 1),
+                                               self.gen_tail(ret, s1, ctx.deeper(), 0))))
+                else:
+                    s1.add(b, t, False)
+                    self.tainted.add(b)
+                    arms.append((("bind", b), (self.block(s1, ctx.deeper(), 0, 1), self.gen_tail(ret, s1, ctx.deeper(), 0))))
             else:
                 s1 = Scope(sc)
                 arms.append((("wild",), (self.block(s1, ctx.deeper(), 0, 1), self.gen_tail(ret, s1, ctx.deeper(), 0))))
